@@ -742,19 +742,6 @@ fn diff_fields(a: &Obj, b: &Obj) -> Vec<&'static str> {
     d
 }
 
-/// id of the known finding for "object typed circle/slider AND spinner makes the next object start a combo"
-pub const F_SPINNER_BIT: &str = "D15";
-
-/// report a failure of a known class, but only the first 25 per class, so
-/// that the shared cap on recorded failures cannot hide an unlisted one
-fn fail_known(out: &mut Out, class: &str, input: &str, detail: &str) {
-    let key = format!("finding_{class}_instances");
-    out.count(&key);
-    if out.dist[&key] <= 25 {
-        out.fail(class, input, detail);
-    }
-}
-
 fn direct_checks(o: &Obj, out: &mut Out, input: &str) {
     // clauses of the property that can be read off a single object
     let neg = |bits: u64| f64::from_bits(bits) < 0.0 || f64::from_bits(bits).is_nan();
@@ -801,15 +788,10 @@ fn direct_checks(o: &Obj, out: &mut Out, input: &str) {
     out.oracle_checks += 1;
 }
 
-fn type_of_line(line: &str) -> Option<i32> {
-    line.split(',').nth(3)?.parse().ok()
-}
-
 /// reference-parser oracle over one sequence
 fn oracle_reference(mode: u8, lines: &[String], run: &Run, out: &mut Out) {
     let mut ctx = RCtx::default();
     let mut idx_obj = 0usize;
-    let mut prev_type: Option<i32> = None; // raw type of the previous accepted line
     for (i, l) in lines.iter().enumerate() {
         if i >= run.res.len() {
             break;
@@ -828,17 +810,16 @@ fn oracle_reference(mode: u8, lines: &[String], run: &Run, out: &mut Out) {
                 direct_checks(got, out, &input);
                 let residue_before = if i == 0 { 0 } else { run.residue[i - 1] };
                 for fld in diff_fields(got, &exp) {
-                    let amb = prev_type.map_or(false, |t| t & 8 != 0 && t & 3 != 0);
-                    if fld == "new_combo" && amb {
-                        fail_known(out, F_SPINNER_BIT, &input, "object starts a new combo although the previous object is not a spinner (its type has the spinner bit next to the circle/slider bit)");
-                    } else if fld == "control_points" && residue_before > 0 {
+                    // "new_combo": the reference decides "first object or directly after a spinner" by the
+                    // KIND of the previously accepted object (former D15, repaired: a type with the spinner
+                    // bit next to the circle/slider bit is a circle/slider) -- any difference is unlisted
+                    if fld == "control_points" && residue_before > 0 {
                         out.fail("", &input, &format!("slider carries control points left behind by an earlier rejected slider line ({residue_before} were pending): got {:?} expected {:?}", got, exp));
                     } else {
                         out.fail("", &input, &format!("field {fld} differs from the documented grammar: got {:?} expected {:?}", got, exp));
                     }
                 }
                 ctx.prev_kind = Some(k);
-                prev_type = type_of_line(l);
             }
         }
     }
@@ -1236,9 +1217,13 @@ pub fn generate(tier: &str, seed: u64, out: &mut Out) {
     // ---- corpus: recorded readings and findings first
     // former D3 (repaired): a rejected slider must not leak its first segments into the next one
     run_case(0, &[s("1,1,0,2,0,B|100:100|L|200:0|P|x:0,1,300"), s("1,1,0,2,0,L|50:50,1,50")], out);
-    // spinner bit next to the circle bit
+    // former D15 (repaired): the spinner bit next to the circle / slider bit is a circle / slider, the next
+    // object does not follow a spinner; next to the hold bit alone it IS a spinner
     run_case(0, &[s("0,0,0,9,0"), s("0,0,0,1,0")], out);
     run_case(0, &[s("0,0,0,10,0,L|5:5,1"), s("0,0,10,1,0")], out);
+    run_case(0, &[s("0,0,0,11,0"), s("0,0,10,2,0,L|5:5,1")], out);
+    run_case(0, &[s("0,0,0,136,0,50"), s("0,0,60,1,0"), s("0,0,70,2,0,L|5:5,1")], out);
+    run_case(0, &[s("0,0,0,9,0"), s("0,0,5,8,0"), s("bad"), s("0,0,10,1,0")], out);
     // signed zeros in durations
     run_case(3, &[s("0,0,0,8,0,-0"), s("0,0,0,128,0,-0:0:0:0:0:"), s("0,0,-0,128,0,0:0:0:0:0:"), s("0,0,-0,128,0")], out);
     run_case(1, &[s("-0.5,0,0,-1,0"), s("256,192,1000,12,0,3000,0:0:0:0:"), s("1,2,3,1,14,1:2:3:40:file.wav")], out);
